@@ -9,6 +9,8 @@ ACTION_CTOR = {"mapping_up": "MappingUp", "mapping_down": "MappingDown", "mappin
                "channel_up": "ChannelUp", "channel_down": "ChannelDown", "channel": "AChannel", "multinote": "Multinote",
                "panic": "Panic", "cc_learning": "Learning", "exit": "Exit"}
 CMODES = ["off", "no_repeat", "interrupt", "retrigger"]
+PARTNER = {"mapping_up": "mapping_down", "mapping_down": "mapping_up", "octave_up": "octave_down", "octave_down": "octave_up",
+           "semitone_up": "semitone_down", "semitone_down": "semitone_up", "channel_up": "channel_down", "channel_down": "channel_up"}
 CMODE_CTOR = {"off": "COff", "no_repeat": "CNoRepeat", "interrupt": "CInterrupt", "retrigger": "CRetrigger"}
 ATYPE_CTOR = {"cc": "ACC", "pitch_bend": "APitchBend", "key": "AKeySim", "action": "AActionSim"}
 
@@ -173,6 +175,11 @@ def gen_history(rng, cfg, n, p_action=0.3, avoid_exit=True, repeats=True, max_do
             h.append({"t": "k", "sub": down.pop(code), "code": code, "val": 0})
             continue
         pool = act_codes if (act_codes and rng.random() < p_action) else note_codes
+        # up/down chords (pair resets) take a code path of their own in the device: make them frequent
+        partners = [c for c in act_codes if c[1] not in down and
+                    any(PARTNER.get(action_codes[c[1]]) == action_codes[d] for d in down if d in action_codes)]
+        if partners and rng.random() < 0.35:
+            pool = partners
         cand = [c for c in pool if c[1] not in down]
         if not cand:
             continue
